@@ -70,6 +70,19 @@ def main(n=3000):
         def apr():
             b = bytearray(); b.append(x); b += struct.pack('>h', vals[0] if vals else 0); b.extend(array.array('B', uv)); return b
         bad += _same(ap, apr, 1); runs += 1
+    # whitespace splitting of the text models
+    def _txt(x):
+        if isinstance(x, (str, bytes)): return x if isinstance(x, str) else x.decode('latin1')
+        if isinstance(x, pysym.SymChars): return ''.join(chr(int(c if isinstance(c, int) else c.conc())) for c in x.items)
+        if isinstance(x, pysym.SymStr): return ''.join(p if isinstance(p, str) else (str(p.v if isinstance(p.v, int) else p.v.conc()) if isinstance(p, pysym.Dec) else ''.join(chr(int(c if isinstance(c, int) else c.conc())) for c in p.items)) for p in x.pieces)
+        return x
+    alphabet = ' \t\n\rAB1\x0b\x0c\x1c\x00'
+    for _ in range(n // 3):
+        cur.s = ''.join(rnd.choice(alphabet) for _ in range(rnd.randint(0, 7)))
+        bad += _same(lambda: [_txt(t) for t in pysym.SymChars([ord(c) for c in cur.s], False).split()], lambda: cur.s.split(), 1); runs += 1
+        bad += _same(lambda: [_txt(t) for t in pysym.SymChars([ord(c) for c in cur.s], True).split()], lambda: [t.decode('latin1') for t in cur.s.encode('latin1').split()], 1); runs += 1
+        cur.k = rnd.randint(0, 999)
+        bad += _same(lambda: [_txt(t) for t in pysym.SymStr([cur.s[:3], pysym.Dec(cur.k), cur.s[3:]], False).split()], lambda: (cur.s[:3] + str(cur.k) + cur.s[3:]).split(), 1); runs += 1
     # multi-field struct formats
     for _ in range(n // 3):
         fmt = rnd.choice(['>BL', '>BH', '<HB', '>2B', '!hH', '>BxH', '>LB', '<bI', '>Bh', '>3B', '>HL', '<Q', '>q', '>lB'])
